@@ -267,6 +267,67 @@ class Repo:
         if level >= 1:
             self._normalize()
 
+    @staticmethod
+    def _unbound_names(fn: ast.FunctionDef, module_names: set) -> set:
+        import builtins
+        bound = {a.arg for a in fn.args.args + fn.args.kwonlyargs + fn.args.posonlyargs}
+        if fn.args.vararg:
+            bound.add(fn.args.vararg.arg)
+        if fn.args.kwarg:
+            bound.add(fn.args.kwarg.arg)
+        for n in ast.walk(fn):
+            if isinstance(n, ast.Name) and isinstance(n.ctx, (ast.Store, ast.Del)):
+                bound.add(n.id)
+            elif isinstance(n, (ast.FunctionDef, ast.ClassDef)):
+                bound.add(n.name)
+                if isinstance(n, ast.FunctionDef):
+                    bound |= {a.arg for a in n.args.args + n.args.kwonlyargs}
+            elif isinstance(n, (ast.Import, ast.ImportFrom)):
+                bound |= {(a.asname or a.name).split('.')[0] for a in n.names}
+            elif isinstance(n, ast.ExceptHandler) and n.name:
+                bound.add(n.name)
+            elif isinstance(n, ast.Lambda):
+                bound |= {a.arg for a in n.args.args}
+        return {n.id for n in ast.walk(fn) if isinstance(n, ast.Name) and isinstance(n.ctx, ast.Load)
+                and n.id not in bound and n.id not in module_names and not hasattr(builtins, n.id)}
+
+    def _keep_well_formed(self, m: 'ModuleInfo', original: ast.Module):
+        """Safety net for the rewriter: a function whose normal form reads a name that is bound nowhere (and that the
+        source as written does not read either) is kept as written."""
+        def module_names(tree):
+            out = set()
+            for n in ast.walk(tree):
+                if isinstance(n, (ast.Import, ast.ImportFrom)):
+                    out |= {(a.asname or a.name).split('.')[0] for a in n.names}
+            for st in tree.body:
+                if isinstance(st, (ast.FunctionDef, ast.ClassDef)):
+                    out.add(st.name)
+                elif isinstance(st, ast.Assign):
+                    out |= {t.id for t in st.targets if isinstance(t, ast.Name)}
+            return out
+        names0, names1 = module_names(original), module_names(m.tree) | module_names(original)
+
+        def index(tree):
+            out = {}
+
+            def visit(body, prefix):
+                for st in body:
+                    if isinstance(st, ast.FunctionDef):
+                        out[prefix + st.name] = (body, st)
+                    elif isinstance(st, ast.ClassDef):
+                        visit(st.body, prefix + st.name + '.')
+            visit(tree.body, '')
+            return out
+        i0, i1 = index(original), index(m.tree)
+        for name, (body, fn) in i1.items():
+            if name not in i0:
+                continue
+            bad = self._unbound_names(fn, names1) - self._unbound_names(i0[name][1], names0)
+            if bad:
+                k = next(i for i, st in enumerate(body) if st is fn)
+                body[k] = i0[name][1]
+                self.normal_form_rejected = getattr(self, 'normal_form_rejected', []) + [(m.path, name, sorted(bad))]
+
     def _normalize(self):
         from . import normalize
         mods = [m for m in self.modules.values() if m.name != 'setup']
@@ -302,7 +363,9 @@ class Repo:
             if cached is not None:
                 m.tree = cached
             else:
+                original = self._parse(m.source, m.path)
                 normalize.normalize_module(m.tree, imported, backend='.cython.' in m.name)
+                self._keep_well_formed(m, original)
                 _cache_put(key.hexdigest(), m.tree)
             m.functions.clear()
             m.imports.clear()
